@@ -280,10 +280,44 @@ class AsyncExec(StreamExec):
             del it
             return out, end, live_threads()
 
+        if pipe == 'parmapper_async':
+            # sync consumer, async worker function on a loop thread (Stream.parmap with a coroutine function)
+            from mpservice.streamer import Stream
+
+            async def awork(x):
+                await asyncio.sleep(0.01 * ((x * 2) % 3))
+                if kind == 'func_raise' and x == k:
+                    raise Boom('func', x)
+                return x * 10
+
+            self.f = lambda x: x * 10
+            out = []
+            end = None
+            it = iter(Stream(self.source()).parmap(awork, concurrency=cfg.get('conc', 2)))
+            try:
+                for y in it:
+                    out.append(y)
+                    if kind in ('break', 'break_src_raise') and len(out) >= k:
+                        break
+                end = 'end'
+            except Boom:
+                end = 'Boom'
+            it.close()
+            del it
+            return out, end, live_threads()
+
         async def main():
             out = []
             end = None
-            if pipe == 'asyncbuffer':
+            if pipe == 'async_parmapper':
+                # async consumer, sync worker function in a thread pool (AsyncStream.parmap with a plain function)
+                def work(x):
+                    if kind == 'func_raise' and x == k:
+                        raise Boom('func', x)
+                    return x * 10
+                self.f = lambda x: x * 10
+                ait = A.AsyncStream(self.asource()).parmap(work, executor='thread', concurrency=cfg.get('conc', 2)).__aiter__()
+            elif pipe == 'asyncbuffer':
                 ait = A.AsyncBuffer(self.asource(), maxsize=cfg['m']).__aiter__()
             elif pipe == 'asynciter':
                 ait = A.AsyncIter(self.source()).__aiter__()
@@ -314,8 +348,10 @@ class AsyncAdaptersH(Harness):
         from mpservice._queues import SingleLane
         from mpservice.streamer import _streamer_async as A
         codes = []
+        from mpservice.streamer import _streamer as S
         for f in (A.SyncIter._worker, A.SyncIter._start, A.SyncIter._finalize, A.SyncIter.__iter__,
                   A.AsyncBuffer._start, A.AsyncBuffer._run_worker, A.AsyncBuffer._finalize, A.AsyncBuffer.__aiter__,
+                  S.ParmapperAsync.__iter__, A.AsyncParmapper.__aiter__, S.fifo_stream, S.async_fifo_stream,
                   SingleLane.put, SingleLane.get):
             codes += sched.all_codes(f)
         return codes
@@ -338,6 +374,12 @@ class AsyncAdaptersH(Harness):
             for ev in (['none', 0], ['break', 1], ['break', 2], ['src_raise', 0], ['src_raise', 2],
                        ['break_src_raise', 1], ['break_src_raise', 2]):
                 out.append(dict(pipe='asyncbuffer', m=m, n=n, ev=ev, bound=d, cap=cap))
+        # the parmap hybrids: early stop and failures must also leave no thread / executor behind
+        for pipe in ('parmapper_async', 'async_parmapper'):
+            for conc in (1, 2):
+                for ev in (['none', 0], ['break', 1], ['break', 2], ['func_raise', 0], ['func_raise', 2], ['src_raise', 1]):
+                    out.append(dict(pipe=pipe, conc=conc, n=2 * conc + 3, ev=ev, bound=d, cap=cap,
+                                    sched_opts=dict(max_points=20000, max_timer_fires=3000)))
         return out
 
     def new(self, cfg):
